@@ -1266,6 +1266,12 @@ class Frame:
 
     def e_IfExp(self, e):
         c = self.ctx.truthy(self.ev(e.test))
+        if is_sym(c) and self.ctx.opts.get("merge_ifexp") and _pure_expr(e.body) and _pure_expr(e.orelse):
+            # value-level merge (no path split) for arms without calls: used in bit-level code
+            a, b = self.ev(e.body), self.ev(e.orelse)
+            from .lowbits import LB, bv, _bits_of, is_exact
+            if isinstance(a, (LB, int)) and isinstance(b, (LB, int)) and not isinstance(a, bool) and not isinstance(b, bool):
+                return LB(z3.If(c, bv(a), bv(b)), is_exact(a) and is_exact(b), max(_bits_of(a), _bits_of(b)))
         return self.ev(e.body) if self.ctx.branch(c) else self.ev(e.orelse)
 
     def e_BoolOp(self, e):
@@ -1464,7 +1470,12 @@ def _is_boolish(v):
 def _pure_expr(e):
     """expression without calls (safe to evaluate eagerly in a merged boolean)"""
     for n in ast.walk(e):
-        if isinstance(n, (ast.Call, ast.Yield, ast.Await, ast.NamedExpr)):
+        if isinstance(n, ast.Call):
+            # total, side-effect free builtins on one argument are as good as operators
+            if isinstance(n.func, ast.Name) and n.func.id in ("ord", "len") and len(n.args) == 1 and not n.keywords:
+                continue
+            return False
+        if isinstance(n, (ast.Yield, ast.Await, ast.NamedExpr)):
             return False
     return True
 
@@ -1583,8 +1594,20 @@ def binop(ctx, op, a, b):
                 # x & ~(2^k-1)  = x - x mod 2^k
                 return s - L.fmod(s, -c)
             raise Undecided("bitwise and with non-mask")
-        if isinstance(op, (ast.BitOr, ast.BitXor)):
-            raise Undecided("bitwise or/xor on unbounded integers (outside Int mode)")
+        if isinstance(op, ast.BitOr):
+            # Int mode: a | b is accepted only with the proved side condition a = x * 2^k and 0 <= b < 2^k (then a | b = a + b)
+            for x, y in ((a_, b_), (b_, a_)):
+                if is_sym(x) and z3.is_app_of(x, z3.Z3_OP_MUL) and x.num_args() == 2:
+                    cands = [arg for arg in x.children() if z3.is_int_value(arg)]
+                    if cands and _pow2_exp(cands[0].as_long()):
+                        k = cands[0].as_long()
+                        if not ctx.feasible(lnot(land(L.toint(y) >= 0, L.toint(y) < k))):
+                            return x + y
+                if not is_sym(x) and x == 0:
+                    return y
+            raise Undecided("bitwise or on unbounded integers without a provable disjoint-bits side condition")
+        if isinstance(op, ast.BitXor):
+            raise Undecided("bitwise xor on unbounded integers (outside Int mode)")
         raise Undecided("int binop " + type(op).__name__)
     # bytes
     if isinstance(a, (Rope, bytes)) and isinstance(b, (Rope, bytes)) and isinstance(op, ast.Add):
@@ -1835,6 +1858,19 @@ def subscript(ctx, base, idx):
             return base[idx]
         except BaseException as ex:
             raise PyRaise(type(ex), str(ex))
+    if type(idx).__name__ == "LB" and isinstance(base, str) and 1 < len(base) <= 64 and idx.exact:
+        # character table indexed by a small bit-vector: interpreted if-chain, IndexError outside
+        from .lowbits import LB
+        from .seqs import ZChar
+        n = len(base)
+        if not ctx.branch(z3.ULT(idx.v, z3.BitVecVal(n, 32))):
+            raise PyRaise(IndexError)
+        r = z3.BitVecVal(ord(base[0]), 32)
+        for i in range(1, n):
+            r = z3.If(idx.v == i, z3.BitVecVal(ord(base[i]), 32), r)
+        return ZChar(LB(r, True, 21, origin=(base, idx)))
+    if type(idx).__name__ == "LB":
+        idx = idx.as_int()
     if is_sym(idx):
         h = ctx.opts.get("table_lookup")
         if h is not None:
